@@ -3,7 +3,7 @@ C07 — executable model of how curved-edge data travels from the user's faces i
 section (core Lean only):
 
 * `construct/edges.py`       `EdgeData.reverse` (hook added by the repair): `Datum.reverse`
-* `construct/flat/face.py`   `Face.invert` (repaired: reverses the data), `shift`, `reorient`
+* `construct/flat/face.py`   `Face.invert` (repaired: reverses the data), `shift`, `reorient`, `remove_edges`
                              (re-used from the C10 model, which is generic in the edge data)
 * `construct/operations/operation.py`  `Operation.edges` (12 `Frame.add_beam` calls), `Operation.invert`
 * `util/frame.py`            `Frame.add_beam` / `get_all_beams` (symmetric storage, enumeration
@@ -80,6 +80,11 @@ def lineDatum : Datum := { kind := .line, tag := 0 }
 def faceInvert {α : Type} (f : Face α Datum) : Face α Datum :=
   let g := f.invert
   { g with edges := g.edges.map Datum.reverse }
+
+/-- `Face.remove_edges(corners)`: `none` stands for no argument / `None` (all four corners); the
+    edges at the listed corners become lines, an empty list removes nothing -/
+def removeEdges (cs : Option (List Nat)) (es : List Datum) : List Datum :=
+  (cs.getD [0, 1, 2, 3]).foldl (fun es c => es.set c lineDatum) es
 
 inductive FaceOp where
   | invert
@@ -324,6 +329,17 @@ def parseFace? (s : String) : Option (Face Nat Datum × List FaceOp) :=
       let ds ← parseData4? ds
       let ops ← if ops = "" then some [] else (ops.splitOn "+").mapM parseFaceOp?
       some (⟨ls, ds⟩, ops)
+  | [ls, ds, ops, rm] => do
+      -- `rmA` = remove_edges() / remove_edges(None), `rm<digits>` = remove_edges([digits…]), right after construction
+      let ls ← (ls.splitOn ".").mapM String.toNat?
+      if ls.length ≠ 4 then none else
+      let ds ← parseData4? ds
+      let ops ← if ops = "" then some [] else (ops.splitOn "+").mapM parseFaceOp?
+      if !rm.startsWith "rm" then none else
+      let r := (rm.drop 2).toString
+      let cs ← if r = "A" then some none else (r.toList.mapM (fun c => (String.singleton c).toNat?)).map some
+      if (cs.getD []).any (· ≥ 4) then none else
+      some (⟨ls, removeEdges cs ds⟩, ops)
   | _ => none
 
 def parseUOp? (s : String) : Option UOp :=
